@@ -106,12 +106,8 @@ func c04Run(sc *scenario, b *behaviour) (string, string, interface{}) {
 	caches := map[string]*bus.Cache{}
 	sort.Strings(sc.Conns)
 	for _, cn := range sc.Conns {
-		c, err := r.connect(cn)
-		if err != nil {
+		if _, err := r.connect(cn); err != nil {
 			hlib.Fatal("connect: %v", err)
-		}
-		if err := bus.AuthenticateUser(c.ep, "u", "t"); err != nil {
-			hlib.Fatal("authenticate: %v", err)
 		}
 	}
 	clients := map[string]string{}
@@ -123,12 +119,26 @@ func c04Run(sc *scenario, b *behaviour) (string, string, interface{}) {
 		cnames = append(cnames, cl)
 	}
 	sort.Strings(cnames)
+	authed := map[string]bool{}
 	for _, cl := range cnames {
-		cache := bus.NewCache(r.conns[clients[cl]].ep)
-		if err := cache.Lookup("probe", r.svcID); err != nil {
-			hlib.Fatal("lookup: %v", err)
+		c := r.conns[clients[cl]]
+		if authed[c.name] {
+			hlib.Fatal("scenario with two clients on one connection is not replayed")
+		}
+		authed[c.name] = true
+		cache, err := r.setupClient(c)
+		if err != nil {
+			return "c04/no-outcome", "set-up call: " + err.Error(), map[string]interface{}{"steps": "set-up (authenticate, metaObject)"}
 		}
 		caches[cl] = cache
+	}
+	for _, cn := range sc.Conns {
+		if !authed[cn] {
+			c := r.conns[cn]
+			if err := bounded("authenticate call", func() error { return bus.AuthenticateUser(c.ep, "u", "t") }); err != nil {
+				return "c04/no-outcome", "set-up call: " + err.Error(), nil
+			}
+		}
 	}
 	returnedN := 0
 	settle := func() bool {
